@@ -2,6 +2,7 @@
    Only statements (fixed in Spec/ActisenseSpec.v) and their closing lemma; nothing else lives here. *)
 From Coq Require Import ZArith List Lia.
 From N2kV Require Import Base.Res Model.ActisenseDefs Spec.ActisenseSpec Proofs.ActisenseProofs.
+From N2kV Require Import Model.ForwardDefs Spec.ForwardSpec Proofs.ForwardProofs.
 Import ListNotations.
 Local Open Scope Z_scope.
 
@@ -58,3 +59,50 @@ Example C17_pending_escape_swallows_start :
   end.
 Proof. vm_compute. reflexivity. Qed.
 Print Assumptions C17_pending_escape_swallows_start.
+
+(* ---------- the forwarding path (tNMEA2000::ForwardMessage from ParseMessages and from SendMsg) ---------- *)
+Theorem C17_forward_decision_table : forward_decision_table_stmt.
+Proof. exact forward_decision_table. Qed.
+Print Assumptions C17_forward_decision_table.
+
+Theorem C17_forward_roundtrip : forward_roundtrip_stmt.
+Proof. exact forward_roundtrip. Qed.
+Print Assumptions C17_forward_roundtrip.
+
+Theorem C17_forward_stream : forward_stream_stmt.
+Proof. exact forward_stream. Qed.
+Print Assumptions C17_forward_stream.
+
+(* non-vacuity: a well-formed received fast-packet message full of escape bytes.  With the constructor's configuration a listener
+   and a listen-and-node device forward it, a node-only device forwards it only when it carries the node's own address, a
+   send-only device never does; a reader that has seen garbage decodes the forward stream of three opportunities (the middle one
+   suppressed by SetForwardOnlyKnownMessages) to the two forwarded messages; the stream of a send-only device is empty *)
+Example C17_forward_nonvacuous :
+  wf_msg nv_fwd_msg /\
+  forward_decision (default_cfg M_ListenOnly) false true false true = true /\
+  forward_decision (default_cfg M_ListenAndNode) false true false true = true /\
+  forward_decision (default_cfg M_NodeOnly) false true false true = false /\
+  forward_decision (default_cfg M_NodeOnly) true true false true = true /\
+  forward_decision (default_cfg M_SendOnly) true true false false = false /\
+  forward_decision (default_cfg M_ListenAndSend) false true true true = true /\
+  forwarded_bytes (default_cfg M_ListenOnly) false true false true nv_fwd_msg = Ok (frame nv_fwd_msg) /\
+  (let c := mk_cfg true true true true M_ListenAndNode in
+   let l := [ {| i_own := false; i_known := true; i_system := false; i_received := true; i_msg := nv_fwd_msg |};
+              {| i_own := false; i_known := false; i_system := false; i_received := true; i_msg := nv_msg |};
+              {| i_own := true; i_known := false; i_system := false; i_received := false; i_msg := nv_msg |} ] in
+   forwarded_msgs c l = [nv_fwd_msg; nv_msg] /\
+   match stream_bytes c l with
+   | Ok out => match run 0 (init (repeat 170 300) 65) ([1; STX; ESC; ETX; 147; ESC] ++ out) with
+               | Ok (_, ms) => ms = [nv_fwd_msg; nv_msg]
+               | _ => False
+               end
+   | _ => False
+   end /\
+   stream_bytes (default_cfg M_SendOnly) l = Ok []).
+Proof.
+  split.
+  { unfold wf_msg, nv_fwd_msg, byte, bytes. cbn [pgn pri dst src tim data length].
+    repeat split; try (vm_compute; congruence); try lia; repeat constructor; vm_compute; congruence. }
+  repeat (split; [vm_compute; reflexivity|]). vm_compute. reflexivity.
+Qed.
+Print Assumptions C17_forward_nonvacuous.
